@@ -46,4 +46,8 @@ Extraction "model.ml"
   Pause.cstep
   Pause.crun
   Pause.cinit
-  Pause.quiescent.
+  Pause.quiescent
+  Pause.astep
+  Pause.arun
+  Pause.ainit
+  Pause.abs_of.
